@@ -1011,7 +1011,7 @@ int bufr_descriptor_set_svalue ( BufrDescriptor *cb , const char *sval )
 
    if (rtrn < 0)
       {
-      sprintf( errmsg, "[%s]", sval );
+      snprintf( errmsg, sizeof(errmsg), "[%s]", sval );
       print_set_value_error( cb, errmsg );
       }
 
@@ -1034,7 +1034,7 @@ static void print_set_value_error( BufrDescriptor *cb, char *valstr )
    strcpy( errmsg, _("Warning: cannot set value for descriptor:") );
    bufr_print_descriptor( errmsg, cb );
    bufr_print_debug( errmsg );
-   sprintf( errmsg, _("with value=%s\n"), valstr );
+   snprintf( errmsg, sizeof(errmsg), _("with value=%s\n"), valstr );
    bufr_print_debug( errmsg );
    }
 
